@@ -10,7 +10,8 @@ driver verbs of C18.  One line = one DAG, one sharing policy, one iterator:
 * policy `none` (NoSharing), `ptr` (InternalSharing), `hash` (identity-hash sharing: structurally equal
   sub-DAGs — equal tags, equal children classes — are one class; the classes are computed here),
   `key` (arbitrary tracker: the key of node `i` is `<key_i>`, a number or `-`);
-* verbs: `post` → `PO.run` (the stack machine of `PostOrderIter::next`), `rtl` → `PO.rtlOn` on the
+* verbs: `all` (every section below in one answer; `<maxdepth>` applies to the `vcut` section),
+  `post` → `PO.run` (the stack machine of `PostOrderIter::next`), `rtl` → `PO.rtlOn` on the
   child-swapped DAG + `unswap`, `pre` → `PO.prun`, `vpre` → `PO.vrun` with the depth limit,
   `shared` → `PO.isSharedAsRun` plus the decidable forms of `RootFresh` / `Congr` for this input.
 -/
@@ -44,10 +45,6 @@ def showV (v : VItem) : String :=
 def join (xs : List String) : String :=
   xs.foldl (fun acc x => acc ++ " " ++ x) s!"n={xs.length}"
 
-/-- the iteration of `rtl_post_order_iter` given the handle of the child-swapped DAG: the stack
-machine, then `unswap` (the handles are printed by identity, which `mirror` keeps) -/
-def rtlOn (key : T → Option Nat) (mroot : T) : List Out := (run key (init mroot)).map Out.unswap
-
 structure Input where
   n : Nat
   shs : List Sh
@@ -80,14 +77,20 @@ def handle : List String → String
     match parse pol n rest, optNat? md "-" with
     | some inp, some md =>
       let key := keyOf inp.tbl
-      match verb with
-      | "post" => join ((run key (init inp.root)).map showOut)
-      | "rtl" => join ((rtlOn key inp.mroot).map showOut)
-      | "pre" => join ((prun key (pinit inp.root)).map fun t => toString t.id)
-      | "vpre" => join ((vrun key md (vinit inp.root)).map showV)
-      | "shared" =>
-        let b (x : Bool) : Nat := if x then 1 else 0
+      let b (x : Bool) : Nat := if x then 1 else 0
+      let post := fun (_ : Unit) => join ((run key (init inp.root)).map showOut)
+      let rtl := fun (_ : Unit) => join ((rtlOn key inp.mroot).map showOut)
+      let pre := fun (_ : Unit) => join ((prun key (pinit inp.root)).map fun t => toString t.id)
+      let vpre := fun (md : Option Nat) => join ((vrun key md (vinit inp.root)).map showV)
+      let shared := fun (_ : Unit) =>
         s!"{b (isSharedAsRun key inp.root)} rf={b (rootFreshB inp.n inp.tbl)} cg={b (congrB inp.shs inp.tbl)}"
+      match verb with
+      | "all" => s!"post {post ()} | rtl {rtl ()} | pre {pre ()} | vpre {vpre none} | vcut {vpre md} | shared {shared ()}"
+      | "post" => post ()
+      | "rtl" => rtl ()
+      | "pre" => pre ()
+      | "vpre" => vpre md
+      | "shared" => shared ()
       | _ => "bad-op"
     | _, _ => "bad-op"
   | _ => "bad-op"
